@@ -402,9 +402,10 @@ theorem device_acts_for_authenticated_client (H : Hasher) (lookup : String → O
 /-- PAR endpoint, `rejection_classes`: a failed authentication is answered with `parRewrap e`; nothing behind
     the gate runs, nothing is written. -/
 theorem par_rejected_request_reaches_no_handler (H : Hasher) (lookup : String → Option Registration)
-    (http : Http) (req : Request) (requestURI : String) (down : Registration → DResult) (e : Err)
+    (http : Http) (req : Request) (requestURI : String) (validate : Registration → Option Err)
+    (down : Registration → DResult) (e : Err)
     (ha : authenticate H lookup req = .error e) :
-    let o := parEndpoint H lookup http req requestURI down
+    let o := parEndpoint H lookup http req requestURI validate down
     o.ran = [] ∧ o.writes = [] ∧
       (o.result = .error (parRewrap e) ∨ (o.auth = none ∧ o.result = .error errInvalidRequest)) := by
   unfold parEndpoint
@@ -511,56 +512,77 @@ theorem public_never_client_credentials (cfg : Config) (H : Hasher) (lookup : St
           obtain ⟨_, _, hs, _⟩ := hpx _ hmem
           cases hs
 
-/-! ### PAR: whose request is it?  (finding) -/
+/-! ### PAR: whose request is it? -/
 
-/-- What `NewPushedAuthorizeRequest` does: once SOME client is authenticated, the request is processed for the
-    client the `client_id` form parameter names — no comparison with the authenticated client is made
-    (the device endpoint makes one).  `c` and `c'` are unrelated in this statement. -/
-theorem par_processes_in_the_name_of_the_form_client_id (H : Hasher) (lookup : String → Option Registration)
-    (http : Http) (req : Request) (down : Registration → DResult) (c c' : Registration)
-    (hpost : http.method = "POST") (hparse : http.parseOk = true)
-    (ha : authenticate H lookup req = .ok c) (hid : req.clientId ≠ "")
-    (hl : lookup req.clientId = some c') (hd : (down c').err = none) :
-    (parEndpoint H lookup http req "" down).result = .ok (some c') := by
-  unfold parEndpoint
-  have hlen : ¬ req.clientId.length = 0 := fun h0 => hid (String.length_eq_zero_iff.1 h0)
-  simp [hpost, hparse, ha, hlen, hl, hd]
-
-/-- The PAR endpoint does act for the authenticated client when `client_id` is absent or names it. -/
-theorem par_acts_for_authenticated_client_when_id_agrees (H : Hasher) (lookup : String → Option Registration)
-    (http : Http) (req : Request) (requestURI : String) (down : Registration → DResult)
-    (c : Registration) (ha : authenticate H lookup req = .ok c)
-    (hid : req.clientId = "" ∨ req.clientId = c.id) (hreg : lookup c.id = some c)
-    (c'' : Option Registration) (h : (parEndpoint H lookup http req requestURI down).result = .ok c'') :
-    c'' = some c := by
+/-- The PAR endpoint processes a request only in the name of the authenticated client: whatever the
+    `client_id` form parameter names, an accepted request is the authenticated client's.  (Before repair
+    417e2e2 the request was processed for the client the form parameter named; see the regression witness
+    in the non-vacuity section.) -/
+theorem par_acts_for_authenticated_client (H : Hasher) (lookup : String → Option Registration)
+    (http : Http) (req : Request) (requestURI : String) (validate : Registration → Option Err)
+    (down : Registration → DResult)
+    (c'' : Option Registration) (h : (parEndpoint H lookup http req requestURI validate down).result = .ok c'') :
+    ∃ c c', authenticate H lookup req = .ok c ∧ c'' = some c' ∧ c'.id = c.id ∧
+      (req.clientId = "" ∨ lookup req.clientId = some c') := by
   unfold parEndpoint at h
   by_cases h1 : (http.method != "POST") = true
   · simp [h1, Outcome.early] at h
   · by_cases h2 : (!http.parseOk) = true
     · simp [h1, h2, Outcome.early] at h
-    · simp only [h1, h2, ha] at h
-      by_cases h3 : (requestURI != "") = true
-      · simp [h3] at h
-      · have hcid : (if req.clientId.length = 0 then c.id else req.clientId) = c.id := by
-          rcases hid with hid | hid
-          · simp [hid]
-          · by_cases hz : req.clientId.length = 0 <;> simp [hid]
-        simp only [h3, hcid, hreg] at h
-        cases hd : (down c).err with
-        | none => simp [hd] at h; exact h.symm
-        | some e => simp [hd] at h
+    · simp only [h1, h2] at h
+      cases ha : authenticate H lookup req with
+      | error e => rw [ha] at h; cases h
+      | ok c =>
+        rw [ha] at h
+        simp only at h
+        by_cases h3 : (requestURI != "") = true
+        · simp [h3] at h
+        · simp only [h3] at h
+          cases hl : lookup (if req.clientId.length = 0 then c.id else req.clientId) with
+          | none => simp only [hl] at h; cases h
+          | some c' =>
+            simp only [hl] at h
+            cases hv : validate c' with
+            | some e => simp [hv] at h
+            | none =>
+              simp only [hv] at h
+              by_cases hid : (c'.id != c.id) = true
+              · simp [hid] at h
+              · simp only [hid] at h
+                have hid' : c'.id = c.id := by simpa using hid
+                cases hd : (down c').err with
+                | some e => simp [hd] at h
+                | none =>
+                  simp [hd] at h
+                  refine ⟨c, c', rfl, h.symm, hid', ?_⟩
+                  by_cases hz : req.clientId = ""
+                  · exact Or.inl hz
+                  · have hz' : ¬ req.clientId.length = 0 := fun h0 => hz (String.length_eq_zero_iff.1 h0)
+                    simp only [hz', if_false] at hl; exact Or.inr hl
+
+/-- A `client_id` parameter naming a different registered client is refused as `invalid_request` (or with
+    the validation error of that client's request) and nothing is written. -/
+theorem par_refuses_foreign_client_id (H : Hasher) (lookup : String → Option Registration)
+    (http : Http) (req : Request) (validate : Registration → Option Err) (down : Registration → DResult)
+    (c c' : Registration) (hpost : http.method = "POST") (hparse : http.parseOk = true)
+    (ha : authenticate H lookup req = .ok c) (hid : req.clientId ≠ "")
+    (hl : lookup req.clientId = some c') (hne : c'.id ≠ c.id) :
+    let o := parEndpoint H lookup http req "" validate down
+    o.writes = [] ∧ (o.result = .error errInvalidRequest ∨ ∃ e, validate c' = some e ∧ o.result = .error e) := by
+  unfold parEndpoint
+  have hlen : ¬ req.clientId.length = 0 := fun h0 => hid (String.length_eq_zero_iff.1 h0)
+  cases hv : validate c' with
+  | some e => simp [hpost, hparse, ha, hlen, hl, hv]
+  | none => simp [hpost, hparse, ha, hlen, hl, hv, hne]
 
 /-- Anything the PAR endpoint accepts was preceded by a successful authentication of SOME client. -/
 theorem par_accepts_only_after_authentication (H : Hasher) (lookup : String → Option Registration)
-    (http : Http) (req : Request) (requestURI : String) (down : Registration → DResult)
-    (c'' : Option Registration) (h : (parEndpoint H lookup http req requestURI down).result = .ok c'') :
+    (http : Http) (req : Request) (requestURI : String) (validate : Registration → Option Err)
+    (down : Registration → DResult)
+    (c'' : Option Registration) (h : (parEndpoint H lookup http req requestURI validate down).result = .ok c'') :
     ∃ c, authenticate H lookup req = .ok c := by
-  cases ha : authenticate H lookup req with
-  | ok c => exact ⟨c, rfl⟩
-  | error e =>
-    rcases (par_rejected_request_reaches_no_handler H lookup http req requestURI down e ha).2.2 with h' | ⟨_, h'⟩
-    · rw [h'] at h; cases h
-    · rw [h'] at h; cases h
+  obtain ⟨c, _, hc, _⟩ := par_acts_for_authenticated_client H lookup http req requestURI validate down c'' h
+  exact ⟨c, hc⟩
 
 /-! ### The regenerated `CanSkipClientAuth` table -/
 
@@ -631,13 +653,18 @@ example : vs (authenticate Hx reg { bodyReq "" "" with
 private def postHttp : Http := { method := "POST", postFormEmpty := false }
 private def okDown (w : String) : Registration → DResult := fun _ => { err := none, writes := [w] }
 
-/-- FINDING (witness): the public client `pub` authenticates with its bare id in the Basic header, names the
-    confidential client `tgt` in `client_id`, and the pushed authorization request is accepted and stored in
-    the name of `tgt` — no secret of `tgt` was presented. -/
+/-- REGRESSION WITNESS (finding repaired in 417e2e2): the public client `pub` authenticates with its bare id
+    in the Basic header and names the confidential client `tgt` in `client_id`.  Before the repair the pushed
+    authorization request was accepted and stored in the name of `tgt`; now it is refused, nothing is stored. -/
 example :
-    let o := parEndpoint Hx reg postHttp { basicReq "pub" "" with clientId := "tgt" } "" (okDown "CreatePARSession")
-    (match o.auth with | some v => vs v | none => "-") = "ok pub" ∧ rs o.result = "ok tgt" ∧
-      o.writes = ["CreatePARSession"] := by decide
+    let o := parEndpoint Hx reg postHttp { basicReq "pub" "" with clientId := "tgt" } "" (fun _ => none) (okDown "CreatePARSession")
+    (match o.auth with | some v => vs v | none => "-") = "ok pub" ∧ rs o.result = "err invalid_request" ∧
+      o.writes = [] := by decide
+
+/-- … while the owner's own push is accepted -/
+example :
+    let o := parEndpoint Hx reg postHttp { basicReq "tgt" "cur" with clientId := "tgt" } "" (fun _ => none) (okDown "CreatePARSession")
+    rs o.result = "ok tgt" ∧ o.writes = ["CreatePARSession"] := by decide
 
 /-- the device endpoint refuses the same presentation -/
 example :
